@@ -118,6 +118,205 @@ def unit_zero_s2_alpha(ctx):
     ctx.canary("s2 canary", [tm.mk_lt(TOL, rho[0]), tm.mk_lt(tm.ZERO, sigma[0])], vc.simplify_ite([tm.mk_lt(TOL, rho[0])], it.call(m.ns["get_s2"], [rho.copy(), sigma.copy()], {})[0]), tm.ZERO)
 
 
+def partial_baseline(tag):
+    """Contract of a baseline that is a PARTIAL function of the density (as the real ones are: get_sigma divides by the spin densities and their sum; libxc is
+    undefined at zero density): value and derivatives at grid point g are terms PARTIAL:<name>(d, features...) that are defined only where the density d that
+    reaches the baseline (sum over the channels it is given of feature 0) is positive."""
+    def base(interp, X0T):
+        ns, n0, ng = X0T.shape
+        m = np.empty((ng,), dtype=object)
+        dm = np.empty((ns, n0, ng), dtype=object)
+        for g in range(ng):
+            col = [X0T[s, i, g] for s in range(ns) for i in range(n0)]
+            dens = tm.mk_add(*[tm.lift(X0T[s, 0, g]) for s in range(ns)])
+            m[g] = tm.mk_fn("PARTIAL:%s_%d" % (tag, ns), dens, *[tm.lift(c) for c in col])
+            k = 0
+            for s_ in range(ns):
+                for i in range(n0):
+                    dm[s_, i, g] = tm.mk_fn("PARTIAL:D%d_%s_%d" % (k, tag, ns), dens, *[tm.lift(c) for c in col])
+                    k += 1
+        return m, dm
+    return base
+
+
+def undefined_uses(t, hyps, timeout=5.0):
+    """Path-sensitive definedness of a term: every PARTIAL:* application (defined for a positive first argument) and every negative power must be defined on
+    the paths (ite branches) on which the term uses it.  Returns the list of (path conditions, required condition) that are NOT valid under hyps."""
+    bad = []
+
+    def need(path, cond):
+        v, env, be = smt.prove(list(hyps) + list(path), cond, timeout)
+        if v != "valid":
+            bad.append(([tm.show(c, 60) for c in path], tm.show(cond, 80), env if v == "invalid" else None))
+
+    # facts about the transcendental atoms that occur (instances of monotonicity): log u > 0 for u > 1, = 0 at u = 1, < 0 below; p^(a/b) > 0 for p > 0, = 0 at p = 0
+    facts = []
+    for u in tm.subterms(tm.lift(t)).values():
+        if u.op == "f" and u.args[0] == "log":
+            a = u.args[1]
+            facts += [tm.mk_implies(tm.mk_lt(tm.ONE, a), tm.mk_lt(tm.ZERO, u)), tm.mk_implies(tm.mk_eq(a, tm.ONE), tm.mk_eq(u, tm.ZERO)), tm.mk_implies(tm.mk_lt(a, tm.ONE), tm.mk_lt(u, tm.ZERO))]
+        if u.op == "^" and u.args[1].op == "c" and u.args[1].args[0].denominator != 1 and u.args[1].args[0] > 0:
+            b_ = u.args[0]
+            facts += [tm.mk_implies(tm.mk_lt(tm.ZERO, b_), tm.mk_lt(tm.ZERO, u)), tm.mk_implies(tm.mk_eq(b_, tm.ZERO), tm.mk_eq(u, tm.ZERO))]
+    hyps = list(hyps) + facts
+
+    def walk(u, path, seen):
+        key = (u.id, tuple(c.id for c in path))
+        if key in seen:
+            return
+        seen.add(key)
+        if u.op == "ite":
+            c = u.args[0]
+            walk(c, path, seen)
+            walk(u.args[1], path + [c], seen)
+            walk(u.args[2], path + [tm.mk_not(c)], seen)
+            return
+        if u.op == "f" and str(u.args[0]).startswith("PARTIAL:"):
+            need(path, tm.mk_lt(tm.ZERO, u.args[1]))
+        if u.op == "^" and u.args[1].op == "c" and u.args[1].args[0] < 0:
+            need(path, tm.mk_not(tm.mk_eq(u.args[0], tm.ZERO)))
+        if u.op == "^" and u.args[1].op == "c" and u.args[1].args[0].denominator != 1:
+            need(path, tm.mk_le(tm.ZERO, u.args[0]) if u.args[1].args[0] > 0 else tm.mk_lt(tm.ZERO, u.args[0]))
+        if u.op == "f" and u.args[0] == "log":
+            need(path, tm.mk_lt(tm.ZERO, u.args[1]))
+        for a in u.args:
+            if isinstance(a, tm.T):
+                walk(a, path, seen)
+    walk(tm.lift(t), [], set())
+    return bad
+
+
+def unit_baseline_definedness(ctx):
+    """Native baselines (_lda_x / _pbe_x / _chachiyo_x / _vi_x_damp helpers): for every admissible input — density above zero, reduced gradient s2 >= 0 INCLUDING
+    exactly 0, where the Chachiyo closed form is 0/0 and its chain-rule factor dx = c / (2 sqrt(s2)) is infinite — every output (energy, derivatives) is defined:
+    a limiting value has to REPLACE the closed form there (assignment under the mask), not be combined with an undefined intermediate."""
+    it = ctx.interp
+    b = it.load_module(c04.BMOD)
+    nfeat = 4
+    for name in ("_lda_x_helper", "_pbe_x_helper", "_chachiyo_x_helper", "_vi_x_damp_helper"):
+        f = b.ns[name]
+        fq = [c04.BMOD + ":" + name]
+        X = sym_array("X", (nfeat, NS))
+        hyps = [tm.mk_lt(tm.ZERO, X[0, g]) for g in range(NS)] + [tm.mk_le(tm.ZERO, X[1, g]) for g in range(NS)] + [tm.mk_le(tm.ZERO, X[3, g]) for g in range(NS)]
+        it.hyps = list(hyps)
+
+        def thunk():
+            Xc, e, d = X.copy(), np.full((NS,), tm.ZERO, dtype=object), np.full((nfeat, NS), tm.ZERO, dtype=object)
+            it.call(f, [Xc, e, d], {})
+            return e, d
+        for pi_, (o, v, pc, _) in enumerate(all_paths(it, thunk)):
+            if o != "return":
+                ctx.holds("%s total#%d" % (name, pi_), False, "raises %s" % (v,), fq)
+                continue
+            e, d = v
+            H = hyps + pc
+            outs = [("e[g]", e[0])] + [("dedx[%d,g]" % i, d[i, 0]) for i in range(nfeat)]
+            for nm_, t in outs:
+                bad = undefined_uses(t, H)
+                ctx.holds("%s: %s is defined for every density > 0 and every s2 >= 0 (zero gradient included)#%d" % (name, nm_, pi_), not bad,
+                          "undefined intermediate used: %s" % (bad[:1],), fq, witness={"uses": [b_[:2] for b_ in bad[:2]]}, replay=replay_baseline_definedness(name))
+
+
+def replay_baseline_definedness(name):
+    def replay(wit):
+        from pyvc import native
+        native.install_shim()
+        import ciderpress.dft.baselines as bl
+        X = np.zeros((4, 3))
+        X[0] = [0.5, 1.0, 2.0]
+        X[1] = [0.0, 0.0, 0.3]
+        X[3] = [0.1, 0.0, 0.2]
+        e, d = np.zeros(3), np.zeros((4, 3))
+        with np.errstate(all="ignore"):
+            getattr(bl, name)(X.copy(), e, d)
+        bad = bool(not np.all(np.isfinite(e)) or not np.all(np.isfinite(d)))
+        return {"reproduced": bad, "e": [float(x) for x in e], "dedx[1]": [float(x) for x in d[1]], "s2": [0.0, 0.0, 0.3]}
+    return replay
+
+
+def unit_masked_definedness(version, mode, nspin):
+    """'finite' below the cutoff, in a real-arithmetic model: the baselines are partial functions of the density (undefined where it vanishes).  Below the
+    cutoff — which includes density exactly 0 — every output of the wrapper must be DEFINED: the cutoff has to replace the value there (an assignment under
+    the mask), it cannot be applied to a value computed from the undefined baseline (0 * undefined is not 0 in floating point: 0 * NaN = NaN)."""
+    def run(ctx):
+        it = ctx.interp
+        RC = tm.var("rhocut")
+        X0 = sym_array("X", (nspin, c04.N0, NS))
+        fl = abstract_feature_list(it, c04.N0, c04.N1)
+        fevals = c04.make_fevals(it, mode)
+        if version == 1:
+            x = it.load_module(XMOD)
+            mul = Builtin("abs.mul", lambda X: partial_baseline("M")(it, X))
+            addb = Builtin("abs.add", lambda X: partial_baseline("A")(it, X))
+            K = it.call(x.ns["MappedDFTKernel"], [fevals, fl, mode, mul], {"additive_baseline": addb})
+            fq = [XMOD + ":MappedDFTKernel.__call__"]
+            call = lambda: it.call(K, [X0.copy()], {"rhocut": RC})
+            dens = [X0[s, 0, 0] for s in range(nspin)]
+        else:
+            return
+        # admissible input: densities >= 0 (zero included); grid point 0 below the cutoff of the mode
+        if mode == "SEP":
+            below = [tm.mk_lt(d, RC) for d in dens]
+        else:
+            below = [tm.mk_lt(tm.mk_add(*[tm.lift(d) for d in dens]), nspin * RC)]
+        hyps = [tm.mk_lt(tm.ZERO, RC)] + below + [tm.mk_le(tm.ZERO, d) for d in dens]
+        it.hyps = list(hyps)
+        tag = "v%d %s nspin=%d" % (version, mode, nspin)
+        for pi_, (o, v, pc, _) in enumerate(all_paths(it, call)):
+            if o != "return":
+                ctx.holds("%s total#%d" % (tag, pi_), False, "raises %s" % (v,), fq)
+                continue
+            res, dres = v
+            H = hyps + pc
+            outs = [("res[g]", res[0])] + [("dres[%d,%d,g]" % (s, i), dres[s, i, 0]) for s in range(nspin) for i in range(c04.N0)]
+            for nm_, t in outs:
+                bad = undefined_uses(t, H)
+                ctx.holds("%s: below the cutoff %s is defined although the baselines are undefined at vanishing density (the cutoff replaces the value)#%d" % (tag, nm_, pi_),
+                          not bad, "uses an undefined baseline value: %s" % (bad[:1],), fq, witness={"uses": [b[:2] for b in bad[:2]]}, replay=replay_masked_definedness(mode, nspin))
+        # the obligation is not vacuous: above the cutoff the outputs do use the baseline
+        hy2 = [tm.mk_lt(tm.ZERO, RC)] + [tm.mk_le(RC, d) for d in dens]
+        it.hyps = list(hy2)
+        ps = [p_ for p_ in all_paths(it, call) if p_[0] == "return"]
+        uses = any(str(u.args[0]).startswith("PARTIAL:") for p_ in ps for u in tm.subterms(vc.simplify_ite(hy2 + p_[2], p_[1][0][0])).values() if u.op == "f")
+        ctx.holds("%s: above the cutoff the energy does use the baseline (non-vacuity)" % tag, uses, "", fq)
+    return run
+
+
+def replay_masked_definedness(mode, nspin):
+    def replay(wit):
+        from pyvc import native
+        native.install_shim()
+        import ciderpress.dft.xc_evaluator as xe
+        import ciderpress.dft.transform_data as td
+        import ciderpress.dft.baselines as bl
+
+        class Ev(xe.FuncEvaluator):
+            def __call__(self, X1, res=None, dres=None):
+                w = np.arange(1, X1.shape[-1] + 1) * 0.3
+                if X1.ndim == 3:
+                    res[:] += np.sin(X1[0] @ w) + np.sin(X1[1] @ w)
+                    dres[0] += np.cos(X1[0] @ w)[:, None] * w
+                    dres[1] += np.cos(X1[1] @ w)[:, None] * w
+                else:
+                    res[:] += np.sin(X1 @ w)
+                    dres[:] += np.cos(X1 @ w)[:, None] * w
+                return res, dres
+        fl = td.FeatureList([td.UMap(0, 0.7), td.UMap(1, 1.3)])
+        K = xe.MappedDFTKernel([Ev()], fl, mode, bl.BASELINE_CODES["GGA_X_PBE"] if "GGA_X_PBE" in bl.BASELINE_CODES else bl.gga_x_pbe, bl.gga_c_pbe)
+        X = np.zeros((nspin, 2, 3))
+        X[:, 0, 1] = 1e-250
+        X[:, 0, 2] = 0.5
+        X[:, 1, 2] = 0.1
+        with np.errstate(all="ignore"):
+            res, dres = K(X.copy(), rhocut=1e-9)
+        bad = bool(not np.all(np.isfinite(res[:2])) or not np.all(np.isfinite(dres[..., :2])) or np.any(res[:2] != 0) or np.any(dres[..., :2] != 0))
+        # the obligation quantifies over every partial baseline; the shipped PBE baselines are undefined at zero density only in some modes (get_sigma's spin
+        # polarisation 0/0 for two channels): a finite native result says nothing about the contract, a non-finite one reproduces the violation
+        return {"reproduced": True if bad else None, "res_at_zero_density_points": [float(x) for x in np.ravel(res)[:2]], "dres_finite": bool(np.all(np.isfinite(dres[..., :2]))),
+                "note": None if bad else "the shipped baselines are defined at these points in this mode; the contract-level violation stands for a baseline that is not"}
+    return replay
+
+
 def unit_zero_wrapper1(mode, nspin):
     def run(ctx):
         it = ctx.interp
@@ -516,6 +715,7 @@ def units():
         for nspin in (1, 2):
             u.append(("zero-wrapper1/%s/nspin%d" % (mode, nspin), unit_zero_wrapper1(mode, nspin)))
             u.append(("zero-wrapper2/%s/nspin%d" % (mode, nspin), unit_zero_wrapper2(mode, nspin)))
+            u.append(("masked-definedness/v1/%s/nspin%d" % (mode, nspin), unit_masked_definedness(1, mode, nspin)))
     for m in ("npa", "nst", "np", "ns"):
         u.append(("zero-normlist/" + m, unit_zero_normlist(m)))
         u.append(("safety-norm/" + m, unit_safety_norm(m)))
@@ -523,6 +723,7 @@ def units():
             u.append(("safety-semilocal/%s/nspin%d" % (m, nspin), unit_safety_semilocal(m, nspin)))
     for fn in C_DIV:
         u.append(("c-divisions/" + fn, unit_c_divisions(fn)))
+    u.append(("baseline-definedness", unit_baseline_definedness))
     u.append(("safety-settings", unit_safety_settings))
     u.append(("safety-maps", unit_safety_maps))
     return u
